@@ -94,6 +94,7 @@ local Lib		libFrArchive		(Archive, String);
 /* Functions for manipulating the library header. */
 local Lib		libNewHeader		(Lib);
 local Bool		libChkHeader		(Lib);
+local Bool		libChkExtent		(Lib);
 local Lib		libPutHeader		(Lib);
 
 /* Functions for manipulating library sections. */
@@ -698,8 +699,10 @@ libChkHeader(Lib lib)
 			libError(lib, ALDOR_E_LibBadSectName);
 			return false;
 		}
-		if( libNameIndex(lib, n) != i )
-			bug( "Index[Name[i]] != i" );
+		if( libNameIndex(lib, n) != i ) {
+			libError(lib, ALDOR_E_LibSectDup);
+			return false;
+		}
 	}
 
 #if 0
@@ -729,6 +732,27 @@ libChkHeader(Lib lib)
 			libError(lib, ALDOR_E_LibBadSectHdr);
 			return false;
 		}
+
+	return true;
+}
+
+/*
+ * Check that the file is long enough for its header and for every section
+ * the header describes (a truncated file fails this).
+ */
+local Bool
+libChkExtent(Lib lib)
+{
+	long	end;
+	UShort	n = lib->hdr.numSect;
+
+	if (fseek(lib->file, 0L, SEEK_END) != 0) return false;
+	end = ftell(lib->file) - (long) lib->offset;
+
+	if (end < (long) libHdrSize) return false;
+	if (n > 0 && (long) libIndexSect(lib, n-1).offset +
+		     (long) libIndexSect(lib, n-1).length > end)
+		return false;
 
 	return true;
 }
@@ -795,7 +819,12 @@ libGetHeader(Lib lib)
 			libNameIndex(lib, n) = i;
 	}
 
-	libChkHeader(lib);
+	/* A file that fails the header check, or is too short to hold the
+	 * sections its header describes, must not be read any further. */
+	if (!libChkHeader(lib))
+		comsgFatal(NULL, ALDOR_E_LibBadSectHdr, libToStringStatic(lib));
+	if (!libChkExtent(lib))
+		comsgFatal(NULL, ALDOR_E_LibSectOffset, libToStringStatic(lib));
 	return lib;
 }
 
